@@ -20,9 +20,15 @@ func init() {
 }
 
 func clearSign(k *openpgp.Entity, text []byte) []byte {
+	return clearSignWith(k.PrivateKey, text)
+}
+
+// clearSignWith signs with any private key - also one that must not be honoured for signatures (an entity's
+// encryption-only subkey)
+func clearSignWith(pk *packet.PrivateKey, text []byte) []byte {
 	var buf bytes.Buffer
 	cfg := &packet.Config{Time: func() time.Time { return time.Unix(1700000200, 0) }}
-	w, err := clearsign.Encode(&buf, k.PrivateKey, cfg)
+	w, err := clearsign.Encode(&buf, pk, cfg)
 	if err != nil {
 		die("clearsign: %v", err)
 	}
@@ -138,7 +144,13 @@ func execClearsignOne(vec J, out *Writer, echo J) {
 	signed := text
 	signedBy := "none"
 	if k, ok := vec["key"]; ok && k != nil && k.(string) != "" {
-		signed = clearSign(key(k.(string)), text)
+		if k.(string) == "k1enc" {
+			// a cryptographically valid signature made with k1's ENCRYPTION subkey: k1 is in the keyring, but that key
+			// may not sign - no valid signature by a keyring key
+			signed = clearSignWith(key("k1").Subkeys[0].PrivateKey, text)
+		} else {
+			signed = clearSign(key(k.(string)), text)
+		}
 		signedBy = k.(string)
 	}
 	orig := factsOf(signed)
